@@ -225,6 +225,9 @@ func (zstdWriteStreamReader) Close() error {
 }
 
 func (s *byteStreamServer) writeZstd(stream bytestream.ByteStream_WriteServer, request *bytestream.WriteRequest, digest digest.Digest) error {
+	if request.WriteOffset != 0 {
+		return status.Errorf(codes.InvalidArgument, "Attempted to write at offset %d, while 0 was expected", request.WriteOffset)
+	}
 	ctx := stream.Context()
 	streamReader := &zstdWriteStreamReader{
 		stream:      stream,
